@@ -12,8 +12,11 @@ for sets and `hs= ro= fst=` for maps, because the harness runs all of them on th
   tm merge <repr> <M>|<T>       M = k:v.v,k:-   -> <flag>/<map>/<tomb>
   tm state | tm perm <i,..> | tm isbot
 Lists are `-` when empty.  Anything else -> bad-op.
+C04: `lat ...` lines, see Driver/LatDrv.lean.
 -/
 import HvLatSpec.Model.Tombstone
+import HvLatSpec.Driver.LatDrv
+import HvLatSpec.Driver.UfDrv
 open HvLatSpec
 
 def showBool (b : Bool) : String := if b then "true" else "false"
@@ -74,6 +77,8 @@ structure St where
   tsHist : List (TSet Nat) := []
   tm : TMap Nat (List Nat) := TMap.bot
   tmHist : List (TMap Nat (List Nat)) := []
+  lat : Option LatDrv.Slot := none
+  uf : UfDrv.St := {}
 
 def tmIsBot (s : TMap Nat (List Nat)) : Bool := s.map.all (fun kv => kv.2.isEmpty) && s.tomb.isEmpty
 
@@ -105,6 +110,12 @@ def step (st : St) (line : String) : St × String :=
     match (parseNats "," p).bind (pickAll st.tmHist) with
     | some rs => (st, rep mapTags (showTMap (TMap.mergeAll setOps TMap.bot rs)))
     | none => (st, "bad-op")
+  | "uf" :: cmd =>
+    let (u, out) := UfDrv.step st.uf cmd
+    ({ st with uf := u }, out)
+  | "lat" :: cmd =>
+    let (slot, out) := LatDrv.step st.lat cmd
+    ({ st with lat := slot }, out)
   | _ => (st, "bad-op")
 
 partial def loop (h : IO.FS.Stream) (out : IO.FS.Stream) (st : St) : IO Unit := do
